@@ -289,6 +289,10 @@ class Runner:
                             return PathNode(tm(list(pose)))
 
                         path = r.findPathGeneral(lambda: r.generalGenerateTree(gen, dist, coll), goal)
+                        for more in cfg.get("regrow", ()):
+                            # a planner that is used again: the same tree grown by `more` further iterations, then queried
+                            r.iterations = more
+                            path = r.findPathGeneral(lambda: r.generalGenerateTree(gen, dist, coll), goal)
                     else:
                         r.bounds = [list(b) for b in self.bounds]
                         raw_random_pos = r.randomPos
@@ -300,6 +304,9 @@ class Runner:
 
                         r.randomPos, r.distance, r.obstruction = random_pos, dist, coll
                         path = r.findPath(goal)
+                        for more in cfg.get("regrow", ()):
+                            r.iterations = more
+                            path = r.findPath(goal)
                 except HorizonReached:
                     hit = True
                 except (ExecutionHung, HarnessError):
@@ -341,7 +348,8 @@ class Runner:
             viol.append({"clause": "raised", "observed": "reading the tree back: %s: %s" % (type(e).__name__, str(e)[:200]),
                          "case": case, "quantities": {"iterations": cfg["budget"]}})
             return {"key": None, "violations": viol, "stats": {"raised": 1}}
-        found = ti.check_structure(nodes, START, None if hit else cfg["budget"], count_reported, self.dist, blocked)
+        total_budget = cfg["budget"] + sum(cfg.get("regrow", ()))
+        found = ti.check_structure(nodes, START, None if hit else total_budget, count_reported, self.dist, blocked)
         try:
             f2, stats = ti.replay_insertions(START, ev, nodes, DMIN, DMAX, cfg["nnl"], self.dist, blocked, complete=not hit)
         except ValueError as e:
@@ -383,7 +391,7 @@ def factory(cfg):
 
 
 def horizon_of(cfg):
-    draws = cfg["budget"] + cfg.get("slack", 3)
+    draws = cfg["budget"] + sum(cfg.get("regrow", ())) + cfg.get("slack", 3)
     return (TERRAIN_CELLS if cfg["layout"] == "terrain" else 0) + draws * (6 if cfg["part"] == "b" else 1)
 
 
@@ -391,8 +399,9 @@ def mk(part, layout, dmode, nnl, budget, seed, **kw):
     cfg = {"part": part, "layout": layout, "dmode": dmode, "nnl": nnl, "budget": budget, "seed": seed}
     cfg.update(kw)
     tag = "spine" if kw.get("spine") else (kw["active"] if part == "b" else "menu")
-    cfg["name"] = "%s/%s/%s/d%d/k%d/n%d/h+%d/%s" % (part, tag, layout, dmode, nnl, budget, kw.get("slack", 3),
-                                                 "all" if kw.get("bound") is None else "dev%d" % kw["bound"])
+    cfg["name"] = "%s/%s/%s/d%d/k%d/n%d%s/h+%d/%s" % (part, tag, layout, dmode, nnl, budget,
+                                                   "".join("+%d" % m for m in kw.get("regrow", ())), kw.get("slack", 3),
+                                                   "all" if kw.get("bound") is None else "dev%d" % kw["bound"])
     return cfg
 
 
@@ -413,6 +422,12 @@ def plan(tier, seed):
         out.append((mk("a", l, d, k, 1, seed, seeded=True, bound=None), 1))
     for l, d, k in cross:
         out.append((mk("a", l, d, k, 2, seed, seeded=True, bound=None, slack=1), 1))
+    # histories: the same planner grown again with a smaller budget and queried again (tree deeper than the current budget)
+    for l, d, k in (cross if thorough else cover):
+        out.append((mk("a", l, d, k, 2, seed, bound=None, slack=1, regrow=(1,)), 3))
+        out.append((mk("a", l, d, k, 3, seed, spine=True, bound=1, slack=1, regrow=(1, 1)), 3))
+    for l, d, k in (cover if thorough else cover[:2]):
+        out.append((mk("b", l, d, k, 2, seed, active="xy", bound=1, slack=1, regrow=(1,)), 3))
     # (b) default generateTree/findPath, random.uniform scripted per coordinate
     for l, d, k in cross:
         out.append((mk("b", l, d, k, 1, seed, active="xy", bound=None, slack=2), 1))
